@@ -863,14 +863,29 @@ def victim_op_json(o, maxchain=0):
     return j
 
 
+# what a restarted process is asked to do with the directory a kill inside a snapshot / revert left
+FOLLOW_PREFIX = [dict(op="open"), dict(op="mode", mode="RW")]
+FOLLOW = {"snap": FOLLOW_PREFIX + [dict(op="snap", s=8, user=False, cr=8)],
+          "revert": FOLLOW_PREFIX + [dict(op="revert", d=("s", 1), cr=8)]}
+
+
+def follow_kinds(vc):
+    """the follow-up histories that apply: a Snapshot always; a Revert (to the base snapshot s1, retained by every
+    operation under test) when the pre-state has that snapshot"""
+    if vc["op"]["op"] not in ("snap", "revert"):
+        return []
+    has_s1 = any(o["op"] == "snap" and o["s"] == 1 for o in vc["pre"])
+    return ["snap"] + (["revert"] if has_s1 else [])
+
+
 def vcase_term(vc, now):
-    univ = universe(vc["pre"] + [vc["op"]])
+    univ = universe(vc["pre"] + [vc["op"]] + FOLLOW["snap"] + FOLLOW["revert"], extra_heads=3)
     return "mkvcase (%s) [%s] [%s] (%s)" % (
         cfg_term(vc.get("maxchain")), "; ".join(dname_term(d) for d in univ),
         "; ".join(op_term(o, now) for o in vc["pre"]), op_term(vc["op"], now)), univ
 
 
-def run_vcases(ctx, metabin, victim, vcases, tag="v", fail=True, kill=True, workers=16, only=None):
+def run_vcases(ctx, metabin, victim, vcases, tag="v", fail=True, kill=True, workers=16, only=None, follow_step=1):
     """vcases: list of dict(pre=[ops], op=op, maxchain=int).
     Returns list (per vcase) of dict(trace_ok, trace_diff, runs=[...], ncalls, nsys, pre, post, skipped)."""
     import concurrent.futures as cf
@@ -982,6 +997,22 @@ def run_vcases(ctx, metabin, victim, vcases, tag="v", fail=True, kill=True, work
 
     with cf.ThreadPoolExecutor(max_workers=workers) as ex:
         runs = list(ex.map(faulty, jobs))
+    # 4b. after a kill inside a snapshot / revert: the follow-up histories of a restarted process, on copies of the directory
+    #     (before step 5, which opens the directories in place)
+    fjobs = []
+    for k, r in enumerate(runs):
+        vc = vcases[r["case"]]
+        if r["errno"] is None and (r["j"] % follow_step == 0 or r["j"] == len(vc["winents"]) - 1):
+            for kind in follow_kinds(vc):
+                fjobs.append((k, kind))
+    if fjobs:
+        fc = [dict(id=n, ops=[op_json(o) for o in FOLLOW[kind]], maxchain=vcases[runs[k]["case"]].get("maxchain", 0),
+                   **{"from": runs[k]["dir"]}) for n, (k, kind) in enumerate(fjobs)]
+        fo = vlib.run_harness(ctx, metabin, fc, tag=tag + "fol", workers=16, timeout=1800)
+        for n, (k, kind) in enumerate(fjobs):
+            if fo[n].get("err"):
+                raise RuntimeError("follow-up %s: %s" % (kind, fo[n]["err"]))
+            runs[k].setdefault("follow", {})[kind] = fo[n]["obs"]
     # 5. reopen every resulting directory with the real replica.New (fresh process per batch)
     insp = [dict(id=k, inspect=r["dir"]) for k, r in enumerate(runs)]
     for i, vc in enumerate(vcases):
@@ -1061,6 +1092,21 @@ def eval_vcases(ctx, vcases, results, tag="ve"):
             vals = vlib.coq_eval(ctx, "%s_%dc" % (tag, i), ["Meta.Model", "Meta.Corr"], defs, ["cont_oracle_only ipre ipost ys"])
             for r, row in zip(cruns, vlib.parse_coq_list(vals[0])):
                 r.update(c_memdiff=None, c_res_agree=None, c_ddiff=None, c_odiff=None, c_oracle=row)
+        # the follow-up histories after a kill
+        for kind in FOLLOW:
+            fruns = [r for r in info["runs"] if kind in (r.get("follow") or {})]
+            if not fruns:
+                continue
+            ops_t = "[%s]" % "; ".join(op_term(o, vc["now"]) for o in FOLLOW[kind])
+            zs = ["(%d, [%s])" % (r["mi"] if (info["trace_ok"] and r["mi"] is not None) else 0,
+                                  "; ".join(obs_term(ob, univ, tb) for ob in r["follow"][kind])) for r in fruns]
+            fdefs = "Definition v := %s.\nDefinition zs := [\n%s\n].\n" % (vc["term"], ";\n".join(zs))
+            vals = vlib.coq_eval(ctx, "%s_%df%s" % (tag, i, kind), ["Meta.Model", "Meta.Corr"], fdefs, ["check_follows v %s zs" % ops_t])
+            for r, row in zip(fruns, vlib.parse_coq_list(vals[0])):
+                f = vlib.flat(row)
+                ok_len = len(r["follow"][kind]) == len(FOLLOW[kind])
+                r.setdefault("f_res", {})[kind] = dict(step=f[1], field=f[2], oracle=bool(f[3]) and ok_len, model_oracle=f[4],
+                                                        aligned=info["trace_ok"] and r["mi"] is not None)
         if not info["trace_ok"]:
             # the operation's system calls differ from the model's: the model cannot be aligned call by call, but the
             # oracles are predicates on the implementation's own observations
